@@ -46,6 +46,9 @@ type Mut struct {
 	K  string `json:"k"` // create update delete
 	ID string `json:"id"`
 	V  string `json:"v,omitempty"` // JSON text of the stored value
+	// SameTxn runs the operation in the write transaction of the previous mutation
+	// (only honoured when that one is on the same id).
+	SameTxn bool `json:"sameTxn,omitempty"`
 }
 
 // Case is a case.
@@ -365,9 +368,7 @@ func (cl client) apply(rid, name string, data []byte, refetch func() (string, er
 	return ""
 }
 
-func (f *fixture) mutate(m Mut) error {
-	tx := f.st.Write(storeID(f.cfg, m.ID))
-	defer tx.Close()
+func (f *fixture) mutate(tx store.WriteTxn, m Mut) error {
 	switch m.K {
 	case "create":
 		return tx.Create(storedValue(f.cfg, m.V))
@@ -406,47 +407,83 @@ func run(c Case) (msg string, nontrivial bool) {
 		cl[ridFor(id)] = v
 	}
 	model := map[string]string{} // id -> stored text
-	for i, m := range c.Muts {
-		prevText, existed := model[m.ID]
-		mark := f.conn.LogLen()
-		err := f.mutate(m)
-		okWanted := (m.K == "create") != existed
-		if (err == nil) != okWanted {
-			return fmt.Sprintf("mutation %d %+v: error %v with exists=%v (store contract)", i, m, err, existed), nontrivial
+	for i := 0; i < len(c.Muts); {
+		// the group of mutations that share one write transaction
+		j := i + 1
+		for j < len(c.Muts) && c.Muts[j].SameTxn && c.Muts[j].ID == c.Muts[i].ID {
+			j++
 		}
-		if err != nil {
-			continue
-		}
-		if m.K == "delete" {
-			delete(model, m.ID)
-		} else {
-			model[m.ID] = m.V
-		}
-		newText, exists := model[m.ID]
-		sBefore, sAfter := served(c.Cfg, prevText, existed), served(c.Cfg, newText, exists)
-		rid := ridFor(m.ID)
+		id := c.Muts[i].ID
+		rid := ridFor(id)
+		startText, startExisted := model[id]
 		var evs []fakeconn.Entry
-		for _, e := range f.conn.LogFrom(mark) {
-			if e.Kind != "pub" {
+		var evAfter []string // per event: the served representation right after its step
+		tx := f.st.Write(storeID(f.cfg, id))
+		for k := i; k < j; k++ {
+			m := c.Muts[k]
+			prevText, existed := model[m.ID]
+			mark := f.conn.LogLen()
+			err := f.mutate(tx, m)
+			okWanted := (m.K == "create") != existed
+			if (err == nil) != okWanted {
+				_ = tx.Close()
+				return fmt.Sprintf("mutation %d %+v: error %v with exists=%v (store contract)", k, m, err, existed), nontrivial
+			}
+			if err != nil {
 				continue
 			}
-			if strings.HasPrefix(e.Subject, "event."+rid+".") {
-				evs = append(evs, e)
-			} else if strings.HasPrefix(e.Subject, "event.") {
-				return fmt.Sprintf("mutation %d %+v published %s; events must go to the resource id chosen by the transformer (%s)", i, m, e.Subject, rid), nontrivial
+			if m.K == "delete" {
+				delete(model, m.ID)
+			} else {
+				model[m.ID] = m.V
+			}
+			newText, exists := model[m.ID]
+			sBefore, sAfter := served(c.Cfg, prevText, existed), served(c.Cfg, newText, exists)
+			var stepEvs []fakeconn.Entry
+			for _, e := range f.conn.LogFrom(mark) {
+				if e.Kind != "pub" {
+					continue
+				}
+				if strings.HasPrefix(e.Subject, "event."+rid+".") {
+					stepEvs = append(stepEvs, e)
+				} else if strings.HasPrefix(e.Subject, "event.") {
+					_ = tx.Close()
+					return fmt.Sprintf("mutation %d %+v published %s; events must go to the resource id chosen by the transformer (%s)", k, m, e.Subject, rid), nontrivial
+				}
+			}
+			if sBefore == sAfter && len(stepEvs) > 0 {
+				_ = tx.Close()
+				return fmt.Sprintf("mutation %d %+v does not alter the served representation (%s) but published %d events, first %s %s", k, m, sBefore, len(stepEvs), stepEvs[0].Subject, stepEvs[0].Data), nontrivial
+			}
+			if (m.K == "create" || m.K == "delete") && c.Cfg.Default != "" {
+				nontrivial = true
+			}
+			nontrivial = nontrivial || interesting(sBefore, sAfter)
+			evs = append(evs, stepEvs...)
+			for range stepEvs {
+				evAfter = append(evAfter, sAfter)
 			}
 		}
-		if sBefore == sAfter && len(evs) > 0 {
-			return fmt.Sprintf("mutation %d %+v does not alter the served representation (%s) but published %d events, first %s %s", i, m, sBefore, len(evs), evs[0].Subject, evs[0].Data), nontrivial
+		if err := tx.Close(); err != nil {
+			return fmt.Sprintf("Close of the write transaction on %q: %v", id, err), nontrivial
 		}
-		if (m.K == "create" || m.K == "delete") && c.Cfg.Default != "" {
+		if j-i > 1 {
 			nontrivial = true
 		}
-		nontrivial = nontrivial || interesting(sBefore, sAfter)
-		for _, e := range evs {
+		endText, endExists := model[id]
+		sBefore, sAfter := served(c.Cfg, startText, startExisted), served(c.Cfg, endText, endExists)
+		what := fmt.Sprintf("mutations %d..%d %+v", i, j-1, c.Muts[i:j])
+		for x, e := range evs {
 			name := e.Subject[strings.LastIndexByte(e.Subject, '.')+1:]
-			if v := cl.apply(rid, name, e.Data, func() (string, error) { return f.get(rid) }); v != "" {
-				return fmt.Sprintf("mutation %d %+v (served %s -> %s): %s; events: %s", i, m, sBefore, sAfter, v, describe(evs)), nontrivial
+			refetch := func() (string, error) { return f.get(rid) }
+			if j-i > 1 {
+				// inside a longer transaction a get could not be answered at that moment: the
+				// client is given what the service served right after that step
+				after := evAfter[x]
+				refetch = func() (string, error) { return after, nil }
+			}
+			if v := cl.apply(rid, name, e.Data, refetch); v != "" {
+				return fmt.Sprintf("%s (served %s -> %s): %s; events: %s", what, sBefore, sAfter, v, describe(evs)), nontrivial
 			}
 		}
 		fresh, err := f.get(rid)
@@ -454,11 +491,12 @@ func run(c Case) (msg string, nontrivial bool) {
 			return "VERIF-INCONCLUSIVE: " + err.Error(), nontrivial
 		}
 		if fresh != sAfter {
-			return fmt.Sprintf("mutation %d %+v: fresh get returns %q, the served representation should be %q", i, m, fresh, sAfter), nontrivial
+			return fmt.Sprintf("%s: fresh get returns %q, the served representation should be %q", what, fresh, sAfter), nontrivial
 		}
 		if cl[rid] != fresh {
-			return fmt.Sprintf("mutation %d %+v (served %s -> %s): after applying the published events the client holds %q, a fresh get returns %q; events: %s", i, m, sBefore, sAfter, cl[rid], fresh, describe(evs)), nontrivial
+			return fmt.Sprintf("%s (served %s -> %s): after applying the published events the client holds %q, a fresh get returns %q; events: %s", what, sBefore, sAfter, cl[rid], fresh, describe(evs)), nontrivial
 		}
+		i = j
 	}
 	return "", nontrivial
 }
@@ -591,6 +629,9 @@ func genCase(storeKind string) *rapid.Generator[Case] {
 					m.V = genValue(c.Cfg.Type).Draw(t, "v")
 				}
 				last[m.ID] = m.V
+			}
+			if i > 0 && c.Muts[i-1].ID == m.ID {
+				m.SameTxn = rapid.IntRange(0, 3).Draw(t, "sametxn") == 0
 			}
 			c.Muts = append(c.Muts, m)
 		}
